@@ -1,9 +1,11 @@
 (* C03 property theorems: statements only; proofs live in Proofs/{C03,C03Back,C03_TS,...}.v *)
 From Coq Require Import String List Bool.
 From TS Require Import Model.Str Model.Outcome Model.Unicode Model.Syntax Model.Attrs Model.Types Model.Parse
-                       Model.Lang.Common Model.Lang.Decl Model.Lang.TypeScript.
+                       Model.Lang.Common Model.Lang.Decl Model.Lang.TypeScript Model.Lang.Kotlin Model.Lang.Swift
+                       Model.Lang.Scala Model.Lang.Go Model.Lang.Python.
 From TS Require Import Spec.Serde Spec.TargetOsRule Spec.C03Spec.
-From TS Require Proofs.FrontItems Proofs.C03 Proofs.C03_TS.
+From TS Require Proofs.FrontItems Proofs.C03 Proofs.C03_TS Proofs.C03_Kotlin Proofs.C03_Swift Proofs.C03_Scala Proofs.C03_Go
+                Proofs.C03_Python Proofs.C03_Witness.
 Import ListNotations.
 
 (* the struct / enum / type / const item handed to the matching parse_* function *)
@@ -114,3 +116,79 @@ Theorem C03_back_TypeScript : forall (uc : unicode) (cfg : ts_config) (pd : pars
   ts_file_decls uc cfg pd = Ok fd -> good_C03_file TypeScript pd fd = true.
 Proof. exact Proofs.C03_TS.ts_file. Qed.
 Print Assumptions C03_back_TypeScript.
+
+(* C03_back_Kotlin.  Every IR item (inside dom_C03_item: what the parser produces) yields exactly: one
+   <Enum><Variant>Inner class per struct variant, in variant order, listing that variant's fields in order;
+   then the definition of the item itself, listing exactly the item's fields / variants in order, every
+   variant with the payload form of its source variant.  (A const stops the Kotlin back end with todo!():
+   the hypothesis is then false - recorded under C07.) *)
+Theorem C03_item_Kotlin : forall (cfg : kt_config) (it : ritem) ds,
+  kt_decl_of cfg it = Ok ds -> dom_C03_item it = true -> good_C03_item Kotlin it (map kt_obs ds) = true.
+Proof. exact Proofs.C03_Kotlin.kt_item_good. Qed.
+Print Assumptions C03_item_Kotlin.
+
+Theorem C03_back_Kotlin : forall (uc : unicode) (cfg : kt_config) (pd : parsed) (fd : file_decls),
+  kt_file_decls uc cfg pd = Ok fd -> dom_C03_file pd = true -> good_C03_file Kotlin pd fd = true.
+Proof. exact Proofs.C03_Kotlin.kt_file. Qed.
+Print Assumptions C03_back_Kotlin.
+
+(* C03_back_Swift: as Kotlin (CodableVoid is a file-level helper; consts: todo!(), C07) *)
+Theorem C03_item_Swift : forall (uc : unicode) (cfg : sw_config) (it : ritem) st d st',
+  sw_decl_of uc cfg it st = Ok (d, st') -> dom_C03_item it = true -> good_C03_item Swift it (sw_obs d) = true.
+Proof. exact Proofs.C03_Swift.sw_item_good. Qed.
+Print Assumptions C03_item_Swift.
+
+Theorem C03_back_Swift : forall (uc : unicode) (cfg : sw_config) (pd : parsed) (fd : file_decls),
+  sw_file_decls uc cfg pd = Ok fd -> dom_C03_file pd = true -> good_C03_file Swift pd fd = true.
+Proof. exact Proofs.C03_Swift.sw_file. Qed.
+Print Assumptions C03_back_Swift.
+
+(* C03_back_Scala: per item as Kotlin; the FILE theorem needs known_C03_file = None, i.e. no const: Scala's
+   generate_types never looks at data.consts (finding C03-scala-const, witness below) *)
+Theorem C03_item_Scala : forall (cfg : sc_config) (it : ritem) ds,
+  sc_decl_of cfg it = Ok ds -> dom_C03_item it = true -> good_C03_item Scala it (flat_map sc_obs ds) = true.
+Proof. exact Proofs.C03_Scala.sc_item_good. Qed.
+Print Assumptions C03_item_Scala.
+
+Theorem C03_back_Scala : forall (uc : unicode) (cfg : sc_config) (pd : parsed) (fd : file_decls),
+  sc_file_decls uc cfg pd = Ok fd -> dom_C03_file pd = true -> known_C03_file uc Scala pd = None ->
+  good_C03_file Scala pd fd = true.
+Proof. exact Proofs.C03_Scala.sc_file. Qed.
+Print Assumptions C03_back_Scala.
+
+Theorem C03_scala_const_refuted :
+  exists pd fd, dom_C03_file pd = true /\ known_C03_file uc_exec Scala pd = Some "C03-scala-const"%string /\
+                sc_file_decls uc_exec Proofs.C03_Witness.c03_sc_cfg pd = Ok fd /\ good_C03_file Scala pd fd = false.
+Proof. exact Proofs.C03_Witness.scala_const_refuted. Qed.
+Print Assumptions C03_scala_const_refuted.
+
+(* C03_back_Go: helper structs, then the key type `<Enum><Tag>s` of a data-carrying enum, then the item *)
+Theorem C03_item_Go : forall (uc : unicode) (cfg : go_config) (custom_structs : list str) (it : ritem) st ds st',
+  go_decl_of uc cfg custom_structs it st = Ok (ds, st') -> good_C03_item Go it (flat_map go_obs ds) = true.
+Proof. exact Proofs.C03_Go.go_item_good. Qed.
+Print Assumptions C03_item_Go.
+
+Theorem C03_back_Go : forall (uc : unicode) (cfg : go_config) (pd : parsed) (fd : file_decls),
+  go_file_decls uc cfg pd = Ok fd -> good_C03_file Go pd fd = true.
+Proof. exact Proofs.C03_Go.go_file. Qed.
+Print Assumptions C03_back_Go.
+
+(* C03_back_Python: helper classes, then the `<Enum>Types` class listing every wire name, then the item;
+   outside the class C03-python-typekey-collision (two wire names with the same Types member name) *)
+Theorem C03_item_Python : forall (uc : unicode) (cfg : py_config) (it : ritem) st ds st',
+  py_decl_of uc cfg it st = Ok (ds, st') -> dom_C03_item it = true -> known_C03_item uc Python it = None ->
+  good_C03_item Python it (flat_map py_obs ds) = true.
+Proof. exact Proofs.C03_Python.py_item_good. Qed.
+Print Assumptions C03_item_Python.
+
+Theorem C03_back_Python : forall (uc : unicode) (cfg : py_config) (pd : parsed) (fd : file_decls),
+  py_file_decls uc cfg pd = Ok fd -> dom_C03_file pd = true -> known_C03_file uc Python pd = None ->
+  good_C03_file Python pd fd = true.
+Proof. exact Proofs.C03_Python.py_file. Qed.
+Print Assumptions C03_back_Python.
+
+Theorem C03_python_typekey_collision_refuted :
+  exists pd fd, dom_C03_file pd = true /\ known_C03_file uc_exec Python pd = Some "C03-python-typekey-collision"%string /\
+                py_file_decls uc_exec Proofs.C03_Witness.c03_py_cfg pd = Ok fd /\ good_C03_file Python pd fd = false.
+Proof. exact Proofs.C03_Witness.python_typekey_collision_refuted. Qed.
+Print Assumptions C03_python_typekey_collision_refuted.
